@@ -326,6 +326,18 @@ def evaluate(case):
             for fr in traceback.extract_tb(e.__traceback__))
         out['detail'] = repr(e)[:200]
     got = {k: job.settings.maps[0].get(k) for k in reg['options']}
+    # "takes effect": the bypasses are read back through the helpers of
+    # gitwaterflow.utils; an option that is in effect there although nobody
+    # entitled wrote it is as bad as one set in job.settings
+    import bert_e.workflow.gitwaterflow.utils as gutils
+    for k in reg['options']:
+        fn = getattr(gutils, k, None)
+        if callable(fn) and not got.get(k):
+            try:
+                if fn(job):
+                    got[k] = 'in effect through utils.%s()' % k
+            except Exception:
+                pass
     return out, got, [c.text for c in comments]
 
 
